@@ -12,9 +12,14 @@ EXPLANATION = ("(start-depends-on-cap) in fill_thread_stack, if the length of th
                "constant MaxStackLen::None, other threads get a Len cap only under size_limit.is_some() && idx >= 20 (evaluated on order types "
                "of idx), the cap constant is 2048 and the estimate predicate is pos + n*8192 + 65536 > limit; (descriptor-agrees) the recorded "
                "stack range start has the same origin as the copy's source and its size is the length of the copied bytes; (page-start) "
-               "get_stack_info rounds SP down to its page and walks at most the 1 MiB guard distance.")
+               "get_stack_info rounds SP down to its page and walks at most the 1 MiB guard distance; (window-contains-sp) the offset K the capped "
+               "copy adds to the page start satisfies K <= sp_offset < K + cap and K + cap <= region length, decided from enumerated forms "
+               "(round-down of sp_offset to a multiple of the cap, region_len - cap, min of both, 0 under a path condition that implies "
+               "sp_offset < cap — path conditions are evaluated on order types of (sp_offset, cap, region_len)); an uncapped copy is exactly "
+               "the region get_stack_info returned.")
 TRUSTED = ["kernel guard-gap semantics", "page_size from sysconf"]
-ASSUMPTIONS = ["sufficiency of the repaired start computation (that the window does contain SP) is arithmetic over runtime values and is not decided",
+ASSUMPTIONS = ["window-contains-sp relies on get_stack_info's contract start <= sp < start + length (C06/page-start decides the rounding and the extent, the mapping lookup itself is kernel data)",
+               "a window offset written in a form outside the enumerated ones is reported as unproven, not silently accepted",
                "byte equality with target memory is what the kernel returns (see C17)"]
 
 FTS = "linux::sections::thread_list_stream::fill_thread_stack"
@@ -72,6 +77,198 @@ def rule_start_depends_on_cap(ctx):
                   "the capped copy's start address depends on the cap as well (the window is moved towards the stack pointer)",
                   "the stack copy is shortened to min(stack_len, cap) but still starts at the unmodified page start %s: for SP page offsets >= cap the captured window ends below the stack pointer" % show(a[1])[:100],
                   detail={"src": show(a[1])[:300], "len": show(a[2])[:300]})
+
+
+def _last(name):
+    return name.split("::")[-1]
+
+
+class _Window:
+    """decides K <= X < K + W and K + W <= L for the offset K of a shortened window from enumerated forms
+    (X = sp - page_start, W = window length, L = mapping bytes from page_start; contract X < L):
+      rd(X, W) = X - X % W | (X / W) * W          gives K <= X < K + W
+      L - W                                       gives X < K + W and K + W <= L
+      min(A, B)                                   lower if either, upper if both, fits if either
+      0                                           lower; upper iff the path condition implies X < W; fits iff it implies W <= L
+      X                                           lower and upper
+      a join of alternatives                      every alternative under the path condition of its defining block"""
+
+    def __init__(self, b, o, X, W, L):
+        self.b, self.o, self.X, self.W, self.L = b, o, X, W, L
+        self.notes = []
+
+    def var(self, e):
+        e = nosite(core(e))
+        if e in self.X:
+            return "X"
+        if e == self.W:
+            return "W"
+        if e == self.L:
+            return "L"
+        return None
+
+    def relevant(self, a):
+        if not (isinstance(a, tuple) and a and a[0] == "bin" and a[1] in ("Gt", "Ge", "Lt", "Le", "Eq", "Ne")):
+            return False
+        for side in (a[2], a[3]):
+            if self.var(side) is None and not is_const(core(side)):
+                return False
+        return True
+
+    def implied(self, blk, pred):
+        """does every path condition of `blk` imply pred(x, w, l)?  decided on order types of (X, W, L) and the constants compared with"""
+        if blk is None:
+            return False, "no defining block"
+        dnf = conditions(self.b, blk, origin=self.o, relevant=self.relevant)
+        if dnf is None:
+            return False, "path condition too large"
+        consts = {0}
+        for c in dnf:
+            for (a, v) in c:
+                for side in (a[2], a[3]):
+                    cs = core(side)
+                    if is_const(cs) and isinstance(cs[1], int):
+                        consts.add(cs[1])
+        vals = set()
+        for c_ in consts:
+            vals.update((max(0, c_ - 1), c_, c_ + 1))
+        top = max(vals)
+        vals.update((top + 1, top + 2, top + 3))
+        vals = sorted(vals)
+        for x, w, l in itertools.product(vals, repeat=3):
+            if not (x < l):       # contract of get_stack_info: the stack pointer lies inside the returned region
+                continue
+            env = {"X": x, "W": w, "L": l}
+
+            def leaf(e):
+                k = self.var(e)
+                return env[k] if k else None
+            ev = ipe.Eval({}, {}, leaf=leaf)
+            try:
+                holds = any(all(ev.lit(("bin", a[1], core(a[2]), core(a[3]), "usize"), v) for (a, v) in c) for c in dnf)
+            except ipe.Unsupported as e:
+                return False, "unsupported atom: %s" % e
+            if holds and not pred(x, w, l):
+                return False, "sp_offset=%d window=%d region=%d" % (x, w, l)
+        return True, None
+
+    def facts(self, K, blk):
+        """returns (lower, upper, fits); each True or a reason string.  K keeps its call-site identities (join lookup)."""
+        K = core(K)
+        if K[0] == "phi":
+            sites = self.o.phi_sites.get(K)
+            if not sites:
+                r = "join of alternatives without recorded definition sites: %s" % show(K)[:80]
+                return r, r, r
+            res = [self.facts(alt, bl) for (bl, alt) in sorted(sites, key=lambda t: (t[0] is None, t[0] or 0))]
+            out = []
+            for i in range(3):
+                bad = [r[i] for r in res if r[i] is not True]
+                out.append(True if not bad else bad[0])
+            return tuple(out)
+        if self.var(K) == "X":
+            return True, True, "offset = sp_offset alone does not bound the window by the region end"
+        if is_const(K) and K[1] == 0:
+            up, why = self.implied(blk, lambda x, w, l: x < w)
+            ft, why2 = self.implied(blk, lambda x, w, l: w <= l)
+            return (True,
+                    True if up else "offset 0 is selected on a path where the stack pointer may lie at or above the end of the window (%s)" % why,
+                    True if ft else "offset 0 is selected on a path where the window may be longer than the region (%s)" % why2)
+        if K[0] == "bin" and K[1] == "Sub":
+            a, c = core(K[2]), core(K[3])
+            if self.var(a) == "X" and c[0] == "bin" and c[1] == "Rem" and self.var(c[2]) == "X" and self.var(c[3]) == "W":
+                return True, True, "rounding down alone does not bound the window by the region end"
+            if self.var(a) == "L" and self.var(c) == "W":
+                return "region_len - window is not known to lie at or below the stack pointer", True, True
+        if K[0] == "bin" and K[1] == "Mul":
+            for q, m in ((K[2], K[3]), (K[3], K[2])):
+                q, m = core(q), core(m)
+                if q[0] == "bin" and q[1] == "Div" and self.var(q[2]) == "X" and self.var(q[3]) == "W" and self.var(m) == "W":
+                    return True, True, "rounding down alone does not bound the window by the region end"
+        if K[0] == "call" and _last(K[1]) == "min" and len(K[2]) == 2:
+            fa, fb = self.facts(K[2][0], blk), self.facts(K[2][1], blk)
+            lower = True if (fa[0] is True or fb[0] is True) else fa[0]
+            upper = True if (fa[1] is True and fb[1] is True) else (fa[1] if fa[1] is not True else fb[1])
+            fits = True if (fa[2] is True or fb[2] is True) else fa[2]
+            return lower, upper, fits
+        r = "window offset %s is not one of the forms known to keep the stack pointer inside the window" % show(nosite(K))[:120]
+        return r, r, r
+
+
+def rule_window_contains_sp(ctx):
+    R = "C06/window-contains-sp"
+    b = ctx.body(R, FTS)
+    if b is None:
+        return
+    o = Origin(b)
+    cps = list(b.calls(lambda c: (c.short or "").endswith("copy_from_process")))
+    ctx.floor(R, "stack copy in fill_thread_stack", len(cps), 1)
+    cap = ("param", CAP_PARAM)
+    n = 0
+    for bi, t in cps:
+        a = o.call_args(bi)
+        src, ln = a[1], a[2]
+        gsi = [s for s in walk(src) if s[0] == "call" and _last(s[1]) == "get_stack_info"]
+        if not gsi:
+            ctx.unproven(R, "copy", b.where(bi), "the copy source is not derived from get_stack_info: %s" % show(src)[:120])
+            continue
+        g = nosite(gsi[0])
+        P = ("field", ("okval", g), "0")
+        L = ("field", ("okval", g), "1")
+        fields = {nosite(s) for s in walk(src) if s[0] == "field" and s[2] in ("0", "1") and nosite(core(s[1])) == g} | \
+                 {nosite(s) for s in walk(ln) if s[0] == "field" and s[2] in ("0", "1") and nosite(core(s[1])) == g}
+        P = next((f for f in fields if f[2] == "0"), P)
+        L = next((f for f in fields if f[2] == "1"), L)
+        S = ("param", 6)
+
+        def site_alts(e):
+            e_ = strip(e)
+            if e_[0] == "phi" and o.phi_sites.get(e_):
+                return sorted(o.phi_sites[e_], key=lambda t_: (t_[0] is None, t_[0] or 0))
+            return [(None, e_)]
+        sa, la = site_alts(src), site_alts(ln)
+        if {x[0] for x in sa} == {x[0] for x in la} and len(sa) == len(la):
+            pairs = [(bl, s_, dict(la)[bl]) for (bl, s_) in sa]
+        else:
+            pairs = [(bl, s_, l_) for (bl, s_) in sa for (_, l_) in la]
+        for (bl, s_, l_) in pairs:
+            s_n, l_n = nosite(core(s_)), nosite(core(l_))
+            if not mentions(l_n, cap):
+                ok = s_n == P and l_n == L
+                ctx.check(ok, R, ("uncapped", n), b.where(bl if bl is not None else bi),
+                          "without a cap the copy is the whole region returned by get_stack_info (page start of SP up to the end of the mapping)",
+                          "an uncapped copy is not the region returned by get_stack_info: start %s, length %s" % (show(s_n)[:80], show(l_n)[:80]))
+                n += 1
+                continue
+            X = {("call", nm, (S, P)) for nm in {x[1] for x in walk(src) if x[0] == "call" and _last(x[1]) in ("saturating_sub", "wrapping_sub")}} | {("bin", "Sub", S, P)}
+            X = {nosite(x) for x in X}
+            w = _Window(b, o, X, l_n, L)
+            raw = core(s_)
+            K = None
+            if s_n == P:
+                K = ("const", 0, "usize")
+            elif raw[0] == "bin" and raw[1] == "Add":
+                if nosite(core(raw[2])) == P:
+                    K = core(raw[3])
+                elif nosite(core(raw[3])) == P:
+                    K = core(raw[2])
+            if K is None:
+                ctx.unproven(R, ("capped", n), b.where(bl if bl is not None else bi), "the capped copy's start is not page_start + offset: %s" % show(s_n)[:120])
+                n += 1
+                continue
+            lower, upper, fits = w.facts(K, bl if bl is not None else bi)
+            where = b.where(bl if bl is not None else bi)
+            for nm, f, good in (("start<=sp", lower, "the shortened window starts at or below the stack pointer"),
+                                ("sp<end", upper, "the shortened window ends above the stack pointer"),
+                                ("inside-region", fits, "the shortened window stays inside the region returned by get_stack_info (so the read cannot run off the mapping)")):
+                if f is True:
+                    ctx.ok(R, ("capped", n, nm), where, good)
+                elif "is selected on a path" in f:
+                    ctx.violated(R, ("capped", n, nm), where, "the shortened stack window can miss the stack pointer: %s" % f, detail={"offset": show(K)[:300]})
+                else:
+                    ctx.unproven(R, ("capped", n, nm), where, f, detail={"offset": show(K)[:300]})
+            n += 1
+    ctx.floor(R, "copy alternatives decided", n, 2)
 
 
 def rule_who_is_shortened(ctx):
@@ -262,6 +459,7 @@ def rule_page_start(ctx):
 
 def run(ctx):
     rule_start_depends_on_cap(ctx)
+    rule_window_contains_sp(ctx)
     rule_who_is_shortened(ctx)
     rule_descriptor_agrees(ctx)
     rule_page_start(ctx)
